@@ -467,6 +467,22 @@ def run(ctx):
     stats.update(st)
     V.merge(vr)
     bounds.append({"family": "boundary literals (integers around 2**31..2**63-1, doubles at the range edges) and exact integer arithmetic on them", "token_strings": len(bitems), "in_domain_checked": st.get("checked", 0)})
+    # (b'') magnitudes: every power a ** b for b in -70..70 over integer and float bases (integer results that leave
+    # the 64-bit range are dropped by the reference; a negative power of an integer is a small float whatever the size
+    # of |a| ** |b|), alone and inside a product
+    mitems = []
+    bases = [["2"], ["3"], ["7"], ["10"], ["(", "-", "3", ")"], ["n"], ["0.5"], ["1e1"], ["(", "-", "2.5", ")"]]
+    for base in bases:
+        for b_ in range(-70, 71):
+            e_ = ["-", str(-b_)] if b_ < 0 else [str(b_)]
+            mitems.append((base + ["**"] + e_, False))
+            if b_ % 7 == 0:
+                mitems.append((["1.6", "*"] + base + ["**"] + e_, False))
+                mitems.append((base + ["**"] + e_ + ["*"] + base + ["**"] + (["-", str(b_)] if b_ > 0 else [str(-b_)]), False))
+    st, vr = _prep(mitems)
+    stats.update(st)
+    V.merge(vr)
+    bounds.append({"family": "magnitudes: a ** b for every b in -70..70 over 9 integer/float bases, alone and inside products", "token_strings": len(mitems), "in_domain_checked": st.get("checked", 0)})
     # (c) functions at domain points
     fitems = [([f, "(", p, ")"] if not p.startswith("-") else [f, "(", "-", p[1:], ")"], False) for f in FUNCS for p in FUNC_POINTS[f]]
     st, vr = _prep(fitems)
